@@ -1,5 +1,6 @@
 SPECIFICATION Spec
 CONSTANTS
+  Pairwise = FALSE
   MaxLabel = 63
   MaxName = 255
   Alphabet = {0, 97, 46, 92, 61, 128, 195, 169, 255}
